@@ -198,6 +198,8 @@ def run_asyncio(app, config, script, alpn=None, max_requests=None, tail=30.0):
                     await asyncio.sleep(0)
             elif step[0] == "reset":
                 writer.fail = True
+                if writer.paused is not None:
+                    writer.paused.set()          # connection_lost wakes the drain() waiters, with the error
                 if reader.exception() is None:
                     reader.set_exception(ConnectionResetError("reset by peer"))
                 for _ in range(12):
@@ -219,6 +221,7 @@ def run_asyncio(app, config, script, alpn=None, max_requests=None, tail=30.0):
             await asyncio.wait_for(asyncio.shield(task), tail)
         except asyncio.TimeoutError:
             result["cutoff"] = loop.time()
+        result["recycle"] = context.terminate.is_set()      # the worker-recycling signal (max_requests exceeded)
         result["leftovers"] = sorted(t.get_coro().__qualname__ for t in asyncio.all_tasks(loop)
                                      if t is not asyncio.current_task() and not t.done())
         for t in asyncio.all_tasks(loop):
@@ -400,6 +403,8 @@ def run_trio(app, config, script, alpn=None, max_requests=None, tail=30.0):
                     elif step[0] == "reset":
                         sstream.fail = True
                         sstream.reset.set()
+                        if sstream.stalled is not None:
+                            sstream.stalled.set()    # a send parked on the socket fails when the peer resets
                         await client.aclose()
                         await trio.testing.wait_all_tasks_blocked()
                     elif step[0] == "terminate":
@@ -420,6 +425,7 @@ def run_trio(app, config, script, alpn=None, max_requests=None, tail=30.0):
             if not done.is_set():
                 result["cutoff"] = trio.current_time() - t0
                 result["leftovers"] = ["<handler still running>"]
+            result["recycle"] = context.terminate.is_set()
             # a sender parked in a stalled send_all sits in a shielded scope (TCPServer.protocol_send): release it, failing,
             # or the cancellation below would wait for it for ever
             sstream.fail = True
